@@ -144,6 +144,12 @@ type reqDesc struct {
 	Header map[string]string `json:"header,omitempty"`
 }
 
+var mwHeaders = [][2]string{{"Origin", "http://app.example"}, {"Access-Control-Request-Method", "POST"}, {"Access-Control-Request-Method", "GET"},
+	{"Access-Control-Request-Headers", "content-type"}, {"X-Forwarded-Method", "GET"}, {"X-Original-Method", "GET"}, {"X-Forwarded-For", "10.0.0.1"},
+	{"Upgrade", "websocket"}, {"Connection", "Upgrade"}, {"Expect", "100-continue"}, {"If-None-Match", "*"}, {"Accept", "text/event-stream"},
+	{"Authorization", "Bearer admin"}, {"X-Read-Only", "false"}, {"Prefer", "respond-async"}, {"traceparent", "00-4bf92f3577b34da6a3ce929d0e0e4736-00f067aa0ba902b7-01"},
+	{"X-HTTP-Method-Override", "GET"}, {"X-HTTP-Method", "GET"}, {"Idempotency-Key", "ik0"}}
+
 func genRequest(r *vc.Rand, routes []route) reqDesc {
 	rt := vc.Pick(r, routes)
 	d := reqDesc{Target: pathVariant(r, fillPattern(r, rt.Pattern)), Header: map[string]string{}}
@@ -178,6 +184,12 @@ func genRequest(r *vc.Rand, routes []route) reqDesc {
 	}
 	if r.Chance(1, 10) {
 		d.Header["Content-Type"] = vc.Pick(r, []string{"text/plain", "application/x-www-form-urlencoded", "application/json; charset=utf-8"})
+	}
+	// headers that middlewares in front of the handlers look at (CORS pre-flight, proxies, tracing, conditional requests)
+	for _, hv := range mwHeaders {
+		if r.Chance(1, 14) {
+			d.Header[hv[0]] = hv[1]
+		}
 	}
 	return d
 }
@@ -250,6 +262,17 @@ func runC19(cfg *vc.Config, rep *vc.Report) {
 					check(-1, reqDesc{Method: m, Target: p, Body: b})
 					rep.Inc("grid_requests")
 				}
+			}
+			// the registered method with each middleware-relevant header and each option, one at a time
+			b := bodies[bodyKind(rt.Pattern)][0]
+			p := fillPatternPlain(rt.Pattern)
+			for _, hv := range mwHeaders {
+				check(-1, reqDesc{Method: rt.Method, Target: p, Body: b, Header: map[string]string{hv[0]: hv[1]}})
+				rep.Inc("grid_requests")
+			}
+			for _, kv := range []string{"dryRun=false", "preview=false", "force=true", "continueOnFailure=true", "_method=GET", "method=GET", "pit=2023-01-01T00:00:00Z", "expand=volumes"} {
+				check(-1, reqDesc{Method: rt.Method, Target: p + "?" + kv, Body: b})
+				rep.Inc("grid_requests")
 			}
 		}
 		_ = gr
@@ -384,7 +407,21 @@ func runC18(cfg *vc.Config, rep *vc.Report) {
 			if k > 0 {
 				sb.WriteString(",")
 			}
-			fmt.Fprintf(&sb, `{"action":%q,"ik":%q,"data":%s}`, e.Action, e.IK, e.Data)
+			// optional members are left out as often as they are sent empty (a client library omits what is unset)
+			var members []string
+			if e.Action != "" || r.Bool() {
+				members = append(members, fmt.Sprintf(`"action":%q`, e.Action))
+			}
+			if e.IK != "" || r.Bool() {
+				members = append(members, fmt.Sprintf(`"ik":%q`, e.IK))
+			} else {
+				rep.Inc("elements_without_ik_member")
+			}
+			members = append(members, `"data":`+e.Data)
+			if r.Chance(1, 4) {
+				members[0], members[len(members)-1] = members[len(members)-1], members[0]
+			}
+			sb.WriteString("{" + strings.Join(members, ",") + "}")
 		}
 		sb.WriteString("]")
 		b.Decide = func(c Call) error {
